@@ -41,7 +41,18 @@ static const char* oneline(const char* msg) {
   return buf;
 }
 
+// explicit inertial frame, decoupled from the body frame and from the geoms (xipos != xpos, ximat != xmat)
+static void random_inertial(mjg_rng* r, mjsBody* b) {
+  b->explicitinertial = 1;
+  b->mass = mjg_range(r, 0.2, 3);
+  for (int i = 0; i < 3; i++) { b->ipos[i] = mjg_range(r, -0.4, 0.4); b->inertia[i] = mjg_range(r, 0.1, 0.15); }
+  mjg_quat(r, b->iquat);
+}
+
 static void add_geoms(mjg_rng* r, mjsBody* body, int ng, int* ngeom, int allow_plane, double sz) {
+  // lopsided bodies: geoms strung out along one axis with very different densities, so that the BVH root box is far
+  // from the centre of mass and the principal axes are not the body axes
+  int lop = ng > 1 && mjg_chance(r, 0.5), lax = mjg_int(r, 3);
   for (int k = 0; k < ng; k++) {
     mjsGeom* g = mjs_addGeom(body, NULL);
     char nm[32]; gname(nm, (*ngeom)++); mjs_setName(g->element, nm);
@@ -51,6 +62,7 @@ static void add_geoms(mjg_rng* r, mjsBody* body, int ng, int* ngeom, int allow_p
     if (g->type == mjGEOM_PLANE) { g->size[0] = mjg_chance(r, 0.5) ? 0 : mjg_range(r, 0.3, 2); g->size[1] = mjg_chance(r, 0.5) ? 0 : mjg_range(r, 0.3, 2); g->size[2] = 0.1; }
     else { for (int i = 0; i < 3; i++) g->size[i] = mjg_range(r, 0.3 * sz, sz); }
     for (int i = 0; i < 3; i++) g->pos[i] = mjg_range(r, -sz, sz);
+    if (lop) { g->pos[lax] = mjg_range(r, -4 * sz, 4 * sz); g->density = 1000 * pow(10, mjg_range(r, -1.5, 1.5)); }
     if (mjg_chance(r, 0.7)) mjg_quat(r, g->quat);
     g->group = mjg_int(r, 8) - 1;                       // -1..6: exercises the clamp to 0..5
     if (mjg_chance(r, 0.12)) g->rgba[3] = 0;            // invisible
@@ -106,6 +118,7 @@ static mjSpec* scene_spec(uint64_t seed, int nb) {
       if (kind >= 2) { for (int i = 0; i < 3; i++) j->axis[i] = mjg_range(r, -1, 1); if (fabs(j->axis[0]) + fabs(j->axis[1]) + fabs(j->axis[2]) < 0.1) j->axis[2] = 1; }
     }
     add_geoms(r, body, mjg_chance(r, 0.5) ? 1 : 1 + mjg_int(r, 4), &ngeom, 0, sz);
+    if (mjg_chance(r, 0.3)) random_inertial(r, body);
   }
   free(bodies);
   return s;
@@ -245,6 +258,15 @@ static void run_corpus(int which) {
     mjsGeom* g1 = mjs_addGeom(b, NULL); g1->type = mjGEOM_SPHERE; g1->size[0] = 0.1;
     mjsGeom* g2 = mjs_addGeom(b, NULL); g2->type = mjGEOM_SPHERE; g2->size[0] = 0.3; g2->pos[2] = 1;
     pnt[0] = -2; pnt[1] = 0; pnt[2] = 0; vec[0] = 1; cutoff = mjMAXVAL;
+  } else if (which == 2) {
+    // inertial frame rotated against the body frame (explicit iquat = 90 deg about z, ipos off the geoms), body frame = world frame
+    mjsBody* b = mjs_addBody(world, NULL);
+    mjsJoint* j = mjs_addJoint(b, NULL); j->type = mjJNT_FREE;
+    b->explicitinertial = 1; b->mass = 1; b->ipos[0] = 0.3; b->inertia[0] = b->inertia[1] = b->inertia[2] = 0.1;
+    b->iquat[0] = 0.70710678118654757; b->iquat[1] = 0; b->iquat[2] = 0; b->iquat[3] = 0.70710678118654757;
+    mjsGeom* g1 = mjs_addGeom(b, NULL); g1->type = mjGEOM_SPHERE; g1->size[0] = 0.1;
+    mjsGeom* g2 = mjs_addGeom(b, NULL); g2->type = mjGEOM_SPHERE; g2->size[0] = 0.1; g2->pos[0] = 2;
+    pnt[0] = 2; pnt[1] = -2; pnt[2] = 0; vec[1] = 1; cutoff = mjMAXVAL;
   } else {
     mjsGeom* g = mjs_addGeom(world, NULL); g->type = mjGEOM_PLANE; g->size[0] = g->size[1] = 0; g->size[2] = 0.1;
     mjsBody* b = mjs_addBody(world, NULL); b->pos[2] = 5;
